@@ -1082,7 +1082,8 @@ class Crate:
             if b.creation is not None and b.creation[0].id in repl and b.creation[0] is repl[b.creation[0].id][0]:
                 pb, bi, si, ops = b.creation
                 b.creation = (repl[pb.id][1], bi, si, ops)
-        for nb in (x[1] for x in repl.values()):
+        # (every parent, replaced or not: a closure that was re-built must be what its parent's all_bodies() hands out)
+        for nb in list(self.bodies.values()) + [x[1] for x in repl.values()]:
             nb.closures = [repl[c.id][1] if c.id in repl and c is repl[c.id][0] else c for c in nb.closures]
         if self.aliases:
             for b in (x[1] for x in repl.values()):
